@@ -1046,8 +1046,8 @@ func (vc *VC) needPsum(f string) {
 // sumFacts adds ground consequences of the sum lemmas for every measure in use. ps builds a prefix-sum term, fv applies the
 // measure to one element.
 func (vc *VC) sumFacts(st *State, elemSort string, mk func(ps func(arr, n string) string, fv func(v string) string) []string) {
-	if elemSort != "Int" {
-		return
+	if elemSort != "Int" || vc.bytesCtx > 0 {
+		return // measures are over references (storables, elements); byte / integer contents have none
 	}
 	for _, f := range vc.eng.measures {
 		if vc.eng.ufuns[f] != nil {
